@@ -339,55 +339,58 @@ func c17ReceiveCase(pack []byte) *xt.T {
 	var blks []blkT
 	var pks [][]uint32
 	seen := map[string]bool{}
-	pr, err := packfile.NewPackfileReader(io.NopCloser(bytes.NewReader(pack)))
-	if err == nil {
-		for {
-			ot, b, err := pr.ReadObject()
-			if err != nil {
-				break
+	// the implementation is only used to find the payloads on which to tabulate the
+	// outside-world functions; a panic here must not kill case generation (Run reports it)
+	perObject := func(ot int, b []byte) {
+		defer func() { recover() }()
+		switch ot {
+		case packfile.ObjectBlock:
+			if n, e := s2.DecodedLen(b); e == nil && n > 1<<26 {
+				return
 			}
-			switch ot {
-			case packfile.ObjectBlock:
-				raw, err := func() (raw []byte, err error) {
-					defer func() {
-						if r := recover(); r != nil {
-							err = fmt.Errorf("%v", r)
-						}
-					}()
-					if n, e := s2.DecodedLen(b); e == nil && n > 1<<26 {
-						return nil, fmt.Errorf("too large")
-					}
-					return s2.Decode(nil, b)
-				}()
-				if err != nil {
-					continue
+			raw, err := s2.Decode(nil, b)
+			if err != nil {
+				return
+			}
+			if !seen["z"+string(b)] {
+				seen["z"+string(b)] = true
+				zmap.Add(xt.N(xt.Bytes(b), xt.Bytes(raw)))
+			}
+			if !seen["h"+string(raw)] {
+				seen["h"+string(raw)] = true
+				hmap.Add(xt.N(xt.Bytes(raw), xt.Bytes(c17Meow(raw))))
+			}
+			if objects.ValidateBlockBytes(raw) == nil {
+				if _, rows, err := objects.ReadBlockFrom(bytes.NewReader(raw)); err == nil {
+					blks = append(blks, blkT{c17Meow(raw), rows})
 				}
-				if !seen["z"+string(b)] {
-					seen["z"+string(b)] = true
-					zmap.Add(xt.N(xt.Bytes(b), xt.Bytes(raw)))
-				}
-				if !seen["h"+string(raw)] {
-					seen["h"+string(raw)] = true
-					hmap.Add(xt.N(xt.Bytes(raw), xt.Bytes(c17Meow(raw))))
-				}
-				if objects.ValidateBlockBytes(raw) == nil {
-					if _, rows, err := objects.ReadBlockFrom(bytes.NewReader(raw)); err == nil {
-						blks = append(blks, blkT{c17Meow(raw), rows})
-					}
-				}
-			case packfile.ObjectTable, packfile.ObjectCommit:
-				if !seen["h"+string(b)] {
-					seen["h"+string(b)] = true
-					hmap.Add(xt.N(xt.Bytes(b), xt.Bytes(c17Meow(b))))
-				}
-				if ot == packfile.ObjectTable {
-					if _, tbl, err := objects.ReadTableFrom(bytes.NewReader(b)); err == nil {
-						pks = append(pks, tbl.PK)
-					}
+			}
+		case packfile.ObjectTable, packfile.ObjectCommit:
+			if !seen["h"+string(b)] {
+				seen["h"+string(b)] = true
+				hmap.Add(xt.N(xt.Bytes(b), xt.Bytes(c17Meow(b))))
+			}
+			if ot == packfile.ObjectTable {
+				if _, tbl, err := objects.ReadTableFrom(bytes.NewReader(b)); err == nil {
+					pks = append(pks, tbl.PK)
 				}
 			}
 		}
 	}
+	func() {
+		defer func() { recover() }()
+		pr, err := packfile.NewPackfileReader(io.NopCloser(bytes.NewReader(pack)))
+		if err != nil {
+			return
+		}
+		for i := 0; i < 1<<16; i++ {
+			ot, b, err := pr.ReadObject()
+			if err != nil {
+				return
+			}
+			perObject(ot, b)
+		}
+	}()
 	for _, blk := range blks {
 		for _, pk := range pks {
 			key := fmt.Sprintf("i%x/%v", blk.sum, pk)
@@ -624,6 +627,23 @@ func genC17(ctx *Ctx) []Case {
 	addB("witness", 11, packfile.VerifEncodeObjTypeAndLen(3, 1<<63-1))
 	addB("witness", 11, packfile.VerifEncodeObjTypeAndLen(3, 1<<63))
 	addB("witness", 9, []byte("version \x00\x00\x00\x00\nfields \x00\x00\x00\x00\nrowsCount \x00\x00\x00\x00\ncolsCount \xff\xff\xff\xff\ncolumns \x00\x00"))
+	// commit time field: strconv.ParseInt / time.Parse("-0700") corner cases
+	{
+		seed := c18CommitBytes(ctx, nil)
+		if i := bytes.Index(seed, []byte("\ntime ")); i >= 0 {
+			for _, tm := range []string{
+				"+000000001 +0000", "-000000001 -2400", "0000000001 +2460", "0000000001 +2461",
+				"0000000001 +2500", " 000000001 +0700", "0000000001 0700+", "0000000001 +07:0",
+				"0000000001x+0700", "00000_0001 +0700", "0x00000001 +0700", "9999999999 -0000",
+				"0000000000 +0000", "-999999999 +1400", "+-00000001 +0700", "0000000001 +0a00",
+				"0000000001 -1260", "1700000000\x00+0530",
+			} {
+				m := append([]byte{}, seed...)
+				copy(m[i+6:], tm)
+				addB("time", 8, m)
+			}
+		}
+	}
 	c17GenReceive(ctx, add)
 	// mutation of valid encodings
 	for _, entry := range c17Entries {
